@@ -241,7 +241,7 @@ pub fn read_signed_vint(buffer: &[u8]) -> Result<Option<(i64, usize)>, ToolError
     let mut value = if is_negative {
         (buffer[0] as i64) | (!0i64 << (8 - length))
     } else {
-        (buffer[0] & (0xFF >> length)) as i64
+        (buffer[0] as i64) & (0xFF >> length)
     };
 
     for item in buffer.iter().take(length).skip(1) {
